@@ -16,7 +16,7 @@ FLAVOURS = {
     "checked": ("g++", "c++17", ["-O1", "-g", "-DSBEPP_ENABLE_ASSERTS_WITH_HANDLER"]),
     # C++20 (bit_cast / ranges / operator<=> paths of sbepp.hpp) and std::byte views, unoptimised
     "unchecked_O0": ("g++", "c++20", ["-O0", "-g", "-DSBEPP_DISABLE_ASSERTS", "-DWIRE_BYTE=std::byte"]),
-    "checked_clang20": ("clang++", "c++20", ["-O1", "-g", "-DSBEPP_ENABLE_ASSERTS_WITH_HANDLER", "-DWIRE_BYTE=unsigned\ char"]),
+    "checked_clang20": ("clang++", "c++20", ["-O1", "-g", "-DSBEPP_ENABLE_ASSERTS_WITH_HANDLER", "-DWIRE_BYTE=unsigned char"]),
     "unchecked_clang20": ("clang++", "c++20", ["-O1", "-g", "-DSBEPP_DISABLE_ASSERTS"]),
 }
 
